@@ -254,6 +254,22 @@ def single_preemption(x, k, y):
     return policy
 
 
+def preemption_inside(x, func_name, j, y):
+    """Thread x runs to its j-th in-scope event INSIDE the function called func_name (wherever that function is entered), y runs to
+    completion, x resumes. policy.fired tells whether the point existed."""
+    seen = [0]
+
+    def policy(sch, tid, idx, where):
+        if tid == x and where[2] == func_name:
+            seen[0] += 1
+            if seen[0] - 1 == j and not policy.fired:
+                policy.fired = True
+                return y
+        return None
+    policy.fired = False
+    return policy
+
+
 def two_preemptions(x, k1, y, k2):
     state = {"phase": 0, "y_start": None}
 
